@@ -124,6 +124,12 @@ async def replay_race(evs, N, initlen, startlen):
             tasks[rid] = loop.create_task(cache.branch_and_root(e['length'], e['index']))
             clean[rid] = True
             tasks[rid].req = (e['length'], e['index'])
+
+            def completed(t, length=e['length']):
+                # the answer is judged against the hashes as they were when it was given, not when the schedule looks at it
+                t.src_at_done = list(ids[:length])
+                t.slen_at_done = st['slen']
+            tasks[rid].add_done_callback(completed)
             await settle()
             current['rid'] = 0
         elif k in ('extfetch', 'assign', 'leaffetch', 'finish'):
@@ -173,8 +179,9 @@ async def replay_race(evs, N, initlen, startlen):
                 try:
                     branch, root = t.result()
                     results.append({'kind': 'cache', 'n': length, 'i': index, 'extra': 0, 'tsc': False, 'ok': True,
-                                    'branch': [term(b) for b in branch], 'root': term(root), 'src': ids[:length],
-                                    'clean': clean[rid], 'stale': length > st['slen'], 'at': 'finish'})
+                                    'branch': [term(b) for b in branch], 'root': term(root),
+                                    'src': getattr(t, 'src_at_done', ids[:length]),
+                                    'clean': clean[rid], 'stale': length > getattr(t, 'slen_at_done', st['slen']), 'at': 'finish'})
                 except Exception as ex:
                     results.append({'kind': 'failed', 'n': length, 'i': index, 'clean': clean[rid], 'exc': repr(ex)[:80]})
     # everything still in flight finishes
